@@ -9,13 +9,13 @@ K = "Kani 0.68 harnesses compiled into the real crate (cfg(kani) verif_hooks): i
 V = "Verus 0.2026.09.13 on functions extracted mechanically from /repo on every run (rewrite rules with application counts; diffs under evidence/diffs/), contracts spliced from /verif/verus/units"
 
 CHECKS = {
- "C01": dict(tech="Kani inductive-step harnesses on the real rings / zero-copy queues / Uni channels (accept-or-reject, FIFO consume, exactly-once) ",
+ "C01": dict(tech="Kani inductive-step harnesses on the real rings / zero-copy queues / pool / Uni channels (accept-or-reject, FIFO consume, exactly-once) + Verus on AtomicMove / FullSyncMove extracted for symbolic BUFFER_SIZE (counter arithmetic incl. transient overshoot states, protocol-typed counters, write-before-publish, lock discipline)",
              text="Proof, for every sequential history (induction over the ring invariant, every u32 counter origin, every fill level, every payload; BUFFER_SIZE in {2,4,8}, MAX_STREAMS in {1,2}), that an accepted event enters the container once, leaves once through consume with exactly its payload, and that a rejected send hands the payload / un-invoked setter back and changes nothing. Interleavings of concurrent producers/consumers on the lock-free ring are NOT decided.",
              note="K: concrete const generics; CBMC's sequential model of atomics; crossbeam-backed channel not covered (assumed FIFO). Full-sync kinds: all schedules modulo 'the spin lock excludes' + SC.", ref="DESIGN §3.1, §4 C01"),
- "C02": dict(tech="Kani inductive-step harnesses: FIFO order, capacity, pending count on rings, zero-copy queues and Uni channels",
+ "C02": dict(tech="Kani inductive-step harnesses: FIFO order, capacity, pending count on rings, zero-copy queues and Uni channels + Verus ring_atomic / ring_full_sync (symbolic BUFFER_SIZE, every u32 counter value)",
              text="Proof of the sequential FIFO contract: consume yields seq[0]; None iff empty; reject iff all BUFFER_SIZE slots are taken (published + reserved, or pool slots outstanding); pending_items_count == |seq|; never more than BUFFER_SIZE pending. 'Every operation takes effect at one instant' under real concurrency of AtomicMove is NOT decided.",
              note="as C01", ref="DESIGN §3.1, §4 C02"),
- "C03": dict(tech="Kani harnesses on the four non-crossbeam, non-log Multi channels (fan-out to exactly the live listeners, same allocation, per-listener FIFO) + Kani/Verus on the mmap log (one append, per-listener cursor)",
+ "C03": dict(tech="Kani harnesses on the Arc Multi channels (quick) and the pooled / log Multi channels (thorough): fan-out to exactly the live listeners, same allocation, per-listener FIFO + Verus send_derived of the pooled channels for symbolic MAX_STREAMS / BUFFER_SIZE + Kani/Verus on the mmap log topic (one append, per-listener cursor; A-model: publication only by compare-exchange from the own ticket)",
              text="Proof (sequential, listener set fixed as the statement says) that one accepted send puts exactly one handle to the SAME allocation into the queue of every live listener and of no other, keeps per-listener order, and that the handle count equals the number of listeners; log channel: publish appends one entry, cursors yield entries in log order.",
              note="K: BUFFER_SIZE 2 (4 thorough), MAX_STREAMS 1 (2 thorough); crossbeam Multi channel not covered; producers racing consumers not decided.", ref="DESIGN §4 C03"),
  "C04": dict(tech="Kani harnesses: empty-to-non-empty send wakes a live parked stream, for every accepting entry point of the 4 Uni + 4 Multi channels; poll_next registers the waker after the consume attempt; Verus: wake fan-outs for symbolic MAX_STREAMS",
@@ -45,13 +45,13 @@ CHECKS = {
  "C12": dict(tech="Verus on the six de-asynced executor task bodies with ghost phase/clock, register_execution_start/finish (with a termination obligation), and the lifted latch_callback_1p closure",
              text="Proof that the close callback is invoked exactly once, after for_each returned and after the finish was registered, finding an 'ended' status (programmatically ended only if it had been scheduled to finish) and a finish time not before the start time; that the Uni latch invokes the user callback at exactly the MAX_STREAMS-th call. report_scheduled_to_finish racing the end and out-of-order completion inside for_each_concurrent are NOT decided.",
              note="monotone clock, tokio::spawn, for_each*: assumed", ref="DESIGN §4 C12"),
- "C13": dict(tech="Kani inductive-step harnesses on OgreArrayPoolAllocator with both free-list kinds from an arbitrary permutation / split of the ids and arbitrary free-list origin",
+ "C13": dict(tech="Kani inductive-step harnesses on OgreArrayPoolAllocator with both free-list kinds from an arbitrary permutation / split of the ids and arbitrary free-list origin (incl. the mechanism obligation: the destructor runs before the id is back on the free list) + Verus on both free-list rings (symbolic size)",
              text="Proof (all sequential histories, POOL_SIZE in {2,4,8}, incl. exhaust/refill cycles and free-list counter wrap) that alloc hands out only ids that are not outstanding, fails iff all are outstanding, dealloc makes the id allocatable again, and id<->reference conversion is a bijection onto the pool. FullSync free list: all schedules modulo lock exclusion; atomic free list under concurrency NOT decided.",
              note="as C01", ref="DESIGN §3.2, §4 C13"),
  "C14": dict(tech="Kani harnesses on OgreArc / OgreUnique over the real pool with a drop-counting payload (inductive over the reference count)",
              text="Proof (sequential) that clone / drop / bulk increment + raw copies / into_ogre_arc keep 'references_count == live handles', that every handle dereferences to the value written at creation, and that the value is destroyed and its slot returned exactly when the last handle is dropped, a unique->shared conversion neither destroying nor duplicating it.",
              note="clone racing the final drop on different threads: RMW atomicity assumed", ref="DESIGN §3.2, §4 C14"),
- "C15": dict(tech="Kani: every ring / pool / zero-copy harness starts from a SYMBOLIC counter origin (all 2^32 values) with overflow checks on",
+ "C15": dict(tech="Kani: every ring / pool / zero-copy harness starts from a SYMBOLIC counter origin (all 2^32 values) with overflow checks on + Verus: AtomicMove / FullSyncMove arithmetic for symbolic BUFFER_SIZE and every u32 counter value (arithmetic overflow obligations, lap lemma)",
              text="Proof that none of the ring, pool, zero-copy queue contracts depends on the counter origin: accept/reject answers, delivered values and order, reported lengths are as from origin 0, and no arithmetic overflow panic is reachable from any origin (both build modes: CBMC checks + - * like an overflow-checking build, the functional contracts are stated in wrapping arithmetic).",
              note="as C01", ref="DESIGN §3.1, §4 C15"),
  "C16": dict(tech="Kani: reject branches' frame conditions on rings / zero-copy queues / pool, Uni channels and the ogre_arc Multi channels",
